@@ -2751,12 +2751,29 @@ class Mesh:
             "'production' grid non-interactively to ensure reproducibility."
         )
 
+        old_spacing_method = (
+            self.equilibrium.nonorthogonal_options.nonorthogonal_spacing_method
+        )
+
         self.equilibrium.resetNonorthogonalOptions(nonorthogonal_settings)
 
         if self.user_options.orthogonal:
             raise ValueError(
                 "redistributePoints would do nothing for an orthogonal grid."
             )
+
+        if (
+            self.equilibrium.nonorthogonal_options.nonorthogonal_spacing_method
+            != old_spacing_method
+        ):
+            # The distribution of points along the separatrices, and the 'orthogonal'
+            # spacing functions derived from it when the regions are created, depend on
+            # nonorthogonal_spacing_method. Re-create the regions so that the result is
+            # the same as for a Mesh created from scratch with the new settings.
+            parallel_map = next(iter(self.regions.values())).parallel_map
+            self.makeRegions(parallel_map)
+            return
+
         for region in self.regions.values():
             print("redistributing", region.name, flush=True)
             region.distributePointsNonorthogonal(nonorthogonal_settings)
